@@ -17,6 +17,16 @@ for p in props:
         c = e["coverage"]
         out.append(f"| {p['id']} | {len(c.get('cases', []))} | {c.get('paths')} | {c.get('obligations')} ({c.get('discharged')}) | {c.get('evaluations')} | {e['wall_s']:.0f} ({e['tier']}) | {'yes' if c.get('exhaustive') else 'no'} |")
 out.append("")
+tt = "tools/thorough_times.json"
+if os.path.exists(tt):
+    T = json.load(open(tt))
+    out.append("### Last full pass of the thorough tier (one property after the other, 16 jobs; from tools/thorough_times.json)\n")
+    out.append("| id | exit | cases | paths | obligations (discharged) | solver queries | wall s |")
+    out.append("|----|-----:|------:|------:|-------------------------:|---------------:|-------:|")
+    for pid in sorted(T):
+        r = T[pid]
+        out.append(f"| {pid} | {r['rc']} | {r['cases']} | {r['paths']} | {r['obligations']} ({r['discharged']}) | {r['queries']} | {r['wall']} |")
+    out.append("")
 out.append("### Mutants written by the harness authors (mutants/<id>/*.diff), all flagged with VIOLATION unless noted\n")
 for d in sorted(glob.glob("mutants/C*")):
     names = sorted(os.path.basename(x)[:-5] for x in glob.glob(d + "/*.diff"))
